@@ -1162,3 +1162,20 @@ UNIT_META["U72"] = {"functions": ["btree::node::Node::{on_existing (leaf branch)
                                 "one-byte keys as in U71; complete over the leaf sizes 0..=ORDER and every key position"]}
 PROPS["C04"]["kani_units"] = list(PROPS["C04"]["kani_units"]) + ["U72"]
 PROPS["C04"]["claim"] = PROPS["C04"]["claim"] + " Leaf removal (Kani, complete over leaf sizes 0..=8, any key): Node::on_existing releases the value entry of exactly the key named, once; if the value goes away the key leaves the leaf and the other keys stay packed, in order, each with its own value, and a rebalance is asked for exactly when the leaf drops below half full; a key that is not in the leaf changes nothing."
+
+# ---------------------------------------------------------------- C18 (claimed during the build, level other): where the directory lock stands in the life of a handle
+UNIT_META["dir_lock"] = {"functions": ["db::DbInner::open (fragment: from the locking of the lock file to the construction of the handle)", "db::Db::drop_inner (fragment: shutdown drain and release of the lock)"],
+                         "assumes": ["evidence encoding: `holds_lock` is established only by a successful try_lock_exclusive on the lock file (flock through fs2, a function-pointer map_err: shape rewrite) and required by Options::load_and_validate_metadata, Log::open and Column::open; `drained` only by DbInner::kill_logs; `unlock_called` only by FileExt::unlock",
+                                     "what an advisory lock guarantees between handles and processes (flock(2): exclusive, released when the descriptor is closed or the process dies) is the operating system's and is trusted",
+                                     "the statements of DbInner::open in front of the lock (creating the directory, testing for the metadata file, creating the lock file) are outside the fragment: they necessarily run without the lock"]}
+PROPS["C18"] = {
+    "kani_units": [],
+    "verus_units": ["dir_lock"],
+    "level": "other",
+    "technique": "Verus contracts (evidence encoding) on the real DbInner::open and Db::drop_inner, fragments extracted on every run; flock(2) semantics trusted",
+    "claim": "Only the obligations of the code around the advisory lock (what the lock means between handles and processes is the operating system's): DbInner::open takes the exclusive lock on the directory's lock file before it reads the metadata, before it scans the log directory (Log::open deletes empty log files) and before it opens any column file, and an open that does not get the lock returns the lock error without doing any of that; a handle exists only with the lock held; Db::drop_inner releases the lock only after the shutdown drain (DbInner::kill_logs, the last file activity of the handle) has run, and releases it on every path, also when the drain reports an error.",
+    "level_note": "Verus, two fragments. Not decided: that a second handle's try_lock fails (flock semantics), that nothing is changed by a refused open in front of the lock (the directory and an empty lock file may be created), thread joins in front of the drain, a process that dies (the kernel releases the lock).",
+    "trusted_base": TB,
+    "explanation": "Ordering obligations of the locking mechanism proved on the real text; level 'other' because the cross-handle / cross-process clause itself rests on the operating system.",
+    "does_not_cover": ["flock(2) semantics between handles and processes", "what DbInner::open does in front of the lock (create_dir_all, lock file creation)", "read-only opens of a directory without database (fix ad874f8 is outside the contracts)", "process death"],
+}
